@@ -24,14 +24,18 @@ TECHNIQUE = "runtime monitoring: reference bounded FIFO compared event-by-event 
 RULE = ("E1: all histories over {put(unique id), get(plain | callback re-enters get | callback "
         "re-enters put), cancel(pending get i)} to depth 10 (quick) / 12 (thorough) for each of the 16 "
         "(size, backlog) pairs in {None,0,1,2}^2, pruned by hashing (model state, real queue lengths); "
-        "plus random histories of 2000 (quick) / 5000 (thorough) steps.  A case is one history (config, "
+        "plus random histories of 2000 (quick) / 5000 (thorough) steps, and biased fill/churn/flood/drain histories of "
+        "1500 steps with size/backlog limits in {None,6,7,10,20,30} (up to 40 waiting gets / queued values).  A case is one history (config, "
         "action list); non-trivial = at least two actions.")
 ASSUMPTIONS = ["trusted base: the 30-line reference FIFO in this module",
                "unbounded configurations are explored with at most 4 queued values / 4 pending gets at a time "
                "(histories that would grow beyond that are cut; bounded configurations are not capped)"]
 SHARDS = {"quick": 4, "thorough": 16}
 FLOORS = {"step_comparisons": 2000, "deliveries": 500, "overflows": 50, "underflows": 50, "cancelled_gets": 50,
-          "reentrant_gets": 20, "reentrant_puts": 20, "configs_explored": 1}
+          "reentrant_gets": 20, "reentrant_puts": 20, "configs_explored": 1,
+          "steps_with_more_than_5_waiting_or_queued": 5000, "deliveries_out_of_a_backlog_longer_than_5": 500,
+          "cancellations_deep_in_a_long_backlog": 300, "overflows_at_a_size_limit_above_5": 100,
+          "underflows_at_a_backlog_limit_above_5": 100}
 READY = True
 
 LIMITS = (None, 0, 1, 2)
@@ -165,6 +169,19 @@ class World:
             return
         a = tuple(a)
         self.hist.append(a)
+        ctx = self.ctx
+        if len(self.m_waiting) > 5 or len(self.m_queued) > 5:
+            ctx.count("steps_with_more_than_5_waiting_or_queued")
+            ctx.maxi("waiting_gets", len(self.m_waiting))
+            ctx.maxi("queued_values", len(self.m_queued))
+            if a[0] == "cancel" and a[1] in self.m_waiting[3:]:
+                ctx.count("cancellations_deep_in_a_long_backlog")
+            if a[0] == "put" and len(self.m_waiting) > 5:
+                ctx.count("deliveries_out_of_a_backlog_longer_than_5")
+            if a[0] == "put" and self.size is not None and self.size > 5 and len(self.m_queued) >= self.size:
+                ctx.count("overflows_at_a_size_limit_above_5")
+            if a[0] == "get" and self.backlog is not None and self.backlog > 5 and len(self.m_waiting) >= self.backlog and not self.m_queued:
+                ctx.count("underflows_at_a_backlog_limit_above_5")
         if a[0] == "put":
             self.m_put()
             self.r_put()
@@ -270,6 +287,27 @@ def run(ctx):
             ctx.maxi("walk_deliveries", sum(1 for e in w.log if e[0] == "deliver"))
 
         explore.random_walks(ctx, lambda: World(ctx, size, backlog, cap=6 + i % 5), [i], steps, rng_key="walk", on_end=on_end)
+    # long queues / backlogs: limits in 6..30 (or None with a cap of 40), biased phases that fill the backlog with gets,
+    # churn (cancellations anywhere in the backlog), flood with puts up to and beyond the size limit, and drain
+    for i in ctx.cases(48, 1600):
+        rng = ctx.case_rng("longq", i)
+        size = rng.choice((None, 6, 7, 10, 20, 30))
+        backlog = rng.choice((None, 6, 7, 10, 20, 30))
+        w = World(ctx, size, backlog, cap=40)
+        for step in range(1500):
+            acts = w.actions()
+            if not acts:
+                break
+            phase = (step // 120) % 4           # gets / churn / puts / mixed
+            want = (("get",), ("cancel", "get", "put"), ("put",), ("get", "put", "cancel"))[phase]
+            pool = [a for a in acts if a[0] in want]
+            if not pool or rng.random() < 0.15:
+                pool = acts
+            w.apply(rng.choice(pool))
+        w.finish()
+        ctx.evaluated()
+        ctx.distinct(("longq", size, backlog, tuple(w.hist)))
+        ctx.count("long_queue_walk_steps", len(w.hist))
 
 
 def replay(ctx, w):
